@@ -53,6 +53,11 @@ def B_n(decl, incl, strength=1.0):
 
 
 def run(ctx):
+    if ctx.shard == ctx.nshards - 1:
+        # the by-name calling convention of the shipped functions this property is about (see vlib/named.py)
+        from .. import named
+        named.monitor(ctx, ['attitude.mrp:init', 'attitude.mrp:predict', 'attitude.mrp:correct_accel', 'attitude.mrp:correct_mag', 'attitude.mrp:get_state'], ctx.rng("named"))
+        ctx.require("call_by_argument_name", "(by-name calls never evaluated)")
     eqs = get_eqs(ctx)
     if eqs is None:
         return
